@@ -150,6 +150,7 @@ def random_dag_scripts(seed, count, nmax):
 
 class C03(Prop):
     pid = "C03"
+    extra_props = ["Refine"]
     level_text = ("Theorem C03_glitch_free over Model/Engine.v: for every acyclic raw graph, every dependents registration order, "
                   "every set and order of fired sources, propagation terminates, each node with a changed input is updated exactly once "
                   "after all its inputs settled, final firings equal the denotation, independent of all orders. Tie: update log (order "
